@@ -17,7 +17,7 @@ PROPERTY = "C01"
 LEVEL = "exploration"
 NEED_EXT = True
 REQUIRED = ["get_params", "set_params.key", "set_params.returns_self", "clone", "roundtrip.params",
-            "roundtrip.behaviour", "history.steps", "rebuild.behaviour"]
+            "roundtrip.behaviour", "history.steps", "rebuild.behaviour", "witness", "history.refused_call"]
 RULE = ("every registered class (32) x its configurations (2-4 each: nested estimators, stacking lists of 1, 2 and 12 "
         "members, string/callable options, SkBase kwargs) x every key advertised by get_params(deep=True) set once "
         "(enumerated) x random histories of 4-12 get/set/clone operations; non-trivial = configuration with nested "
@@ -193,6 +193,48 @@ def safe_get(est, ctx, K, cfg, deep=True):
     return p
 
 
+def freeze(v, depth=0):
+    """Value (not identity) description of a parameter value: used to notice that an instance nobody touched
+    reports other parameters than before (state shared between instances)."""
+    if is_est(v) and depth < 4:
+        try:
+            return ("est", type(v).__name__, tuple(sorted((k, repr(freeze(x, depth + 1)))
+                                                          for k, x in v.get_params(deep=False).items())))
+        except Exception:
+            return ("est", type(v).__name__)
+    if isinstance(v, numpy.ndarray):
+        return ("arr", v.shape, v.dtype.str, v.tobytes())
+    if isinstance(v, (list, tuple)):
+        return (type(v).__name__, tuple(freeze(x, depth + 1) for x in v))
+    if isinstance(v, dict):
+        return ("dict", tuple(sorted((repr(k), repr(freeze(x, depth + 1))) for k, x in v.items())))
+    if isinstance(v, float) and v != v:
+        return "nan"
+    if v is None or isinstance(v, (bool, int, float, str)):
+        return v
+    return ("obj", type(v).__name__, getattr(v, "__name__", None))
+
+
+def freeze_params(est):
+    return {k: freeze(v) for k, v in est.get_params(deep=True).items()}
+
+
+def check_witness(wit, w0, ctx, K, cfg):
+    """`wit` was built like the instance under test and never touched."""
+    ctx.hit("witness")
+    try:
+        w1 = freeze_params(wit)
+    except Exception as e:
+        ctx.violation(K + "witness/get_params-raised/%s" % type(e).__name__, "an instance nobody touched cannot "
+                      "report its parameters any more: %s" % str(e)[:150], cfg=cfg)
+        return
+    bad = sorted(k for k in set(w0) | set(w1) if w0.get(k, "<absent>") != w1.get(k, "<absent>"))
+    if bad:
+        ctx.violation(K + "witness/untouched-instance-changed", "set_params / clone calls on one instance changed what "
+                      "another instance, built the same way and never touched, reports: %s" % ", ".join(
+                          "%s: %s -> %s" % (k, _short(w0.get(k)), _short(w1.get(k))) for k in bad[:3]), cfg=cfg)
+
+
 def fitted_attrs(est):
     return [k for k in vars(est) if k.endswith("_") and not k.startswith("__") and not k.endswith("__")]
 
@@ -257,6 +299,11 @@ def run_keys(case, ctx):
                           cfg=cfg)
         check_clone(spec, est, ctx, K, cfg, fresh)
         nested = any("__" in k for k in p)
+        try:
+            wit = spec.make(vi)
+            w0 = freeze_params(wit)
+        except Exception:
+            wit = None
         # every advertised key, one at a time, on a fresh instance each
         for key in sorted(p):
             e2 = spec.make(vi)
@@ -406,6 +453,8 @@ def run_keys(case, ctx):
                     ctx.violation(K + "roundtrip/behaviour-differs", "%s differs between A and B although B reports "
                                   "A's parameters" % m, cfg=c2)
                     break
+        if wit is not None:
+            check_witness(wit, w0, ctx, K, cfg)
     ctx.sample({"class": spec.name, "variants": len(spec.variants)})
 
 
@@ -436,10 +485,59 @@ def run_history(case, ctx):
     shadow = safe_get(est, ctx, K, cfg)
     if shadow is None:
         return
+    try:
+        wit = spec.make(vi)
+        w0 = freeze_params(wit)
+    except Exception:
+        wit = None
     nset = 0
+    rngb = numpy.random.RandomState((case["sub"] * 31 + 5) % (2 ** 31))
     for step in range(int(rng.randint(4, 13))):
         op = ["set1", "set1", "setN", "clone", "get", "setfrom"][rng.randint(6)]
+        if rngb.rand() < 0.15:
+            op = "setbad"
         cfg["history"].append(op)
+        if op == "setbad":
+            # a call that must be refused: the object stays usable and the keys that were not given keep their values
+            kind = rngb.randint(4)
+            nest = sorted({k.rsplit("__", 1)[0] for k in shadow if "__" in k})
+            if kind == 0:
+                upd = {"zz_no_such_param": 1}
+            elif kind == 1:
+                upd = {"gamma_": 7}
+            elif kind == 2 and nest:
+                upd = {nest[rngb.randint(len(nest))] + "__zz_no_such_param": 1}
+            else:
+                upd = {"zz_no_such_param": 1}
+                plain = [k for k in sorted(shadow) if "__" not in k and not is_est(shadow[k])
+                         and not isinstance(shadow[k], (list, tuple))]
+                if plain:
+                    k = plain[rngb.randint(len(plain))]
+                    v, ok = alt_value(spec, k, shadow[k], rngb, est)
+                    if ok and not is_est(v):
+                        upd[k] = v
+            cfg["history"][-1] = "setbad(%s)" % ",".join(sorted(upd))
+            try:
+                est.set_params(**upd)
+                raised = None
+            except Exception as e:
+                raised = e
+            ctx.hit("history.refused_call" if raised is not None else "history.unknown_key_accepted")
+            after = safe_get(est, ctx, K + "after-refused-set_params/", cfg)
+            if after is None:
+                return
+            if raised is not None:
+                given = set(upd)
+                moved = [k for k in shadow if k not in given and not any(k.startswith(g + "__") for g in given)
+                         and (k not in after or not eq(after[k], shadow[k]))]
+                extra = [k for k in after if k not in shadow and k not in given]
+                if moved or extra:
+                    ctx.violation(K + "set_params/refused-call-changed-other-keys",
+                                  "set_params(%s) raised %s and changed keys it was not given: %s" % (
+                                      ",".join(sorted(upd)), type(raised).__name__, (moved + extra)[:4]), cfg=cfg)
+                check_clone(spec, est, ctx, K + "after-refused-set_params/", cfg, fresh)
+            shadow = after
+            continue
         if op == "get":
             got = safe_get(est, ctx, K, cfg, deep=bool(rng.randint(2)))
             continue
@@ -500,6 +598,8 @@ def run_history(case, ctx):
                           "after %r the reported parameters differ from the contract: %s" % (
                               cfg["history"][-3:], "; ".join(d[:3])), cfg=cfg)
         shadow = got
+    if wit is not None:
+        check_witness(wit, w0, ctx, K, cfg)
     if nset >= 2:
         ctx.nontriv(spec.name, "history", case["sub"])
     ctx.cls("class=" + spec.name)
